@@ -11,7 +11,7 @@ import itertools
 
 from ..program import AnalysisError, walk_local, dotted
 from ..analysis import Spec, src, const_value
-from ..rules import (ctext, strip_wrappers, kw, canon, cond_equiv, flow_canon, chained_assign_value, substitute_locals,
+from ..rules import (inside, before, ctext, strip_wrappers, kw, canon, cond_equiv, flow_canon, chained_assign_value, substitute_locals,
                      iteration_outcomes, kind_env, GWF, EXC, need_func, stores_to, is_const, raise_class,
                      eval_atom, eval_cond, UNKNOWN, parent_map)
 from . import common
@@ -207,55 +207,140 @@ def compare_queues_table(prog, an, rep):
 
 
 def _version_order_key(k, lam=None):
-    """How a sort key orders (version, branches) items: 'ok' when it is
-    (major, minor') with a missing minor mapped above every number, 'truthy'
-    when a falsy minor (0) is mapped there too, 'low' when a missing minor
-    is mapped to a finite number, else 'unknown'.  k: the function that
-    holds the code; lam: the lambda when the key is written in place."""
+    """How a sort key orders (version, branches) items, compared with
+    compare_branches (major first, then minor, a missing minor last): 'ok',
+    'truthy' when a falsy minor (0) is treated like a missing one, 'low'
+    when a missing minor does not come last, else 'unknown'.  k: the
+    function that holds the code; lam: the lambda when the key is written
+    in place.  The key is read as two tuples, one for a missing minor and
+    one for a present one, compared component by component."""
     if lam is not None:
         if len(lam.args.args) != 1:
             return 'unknown'
-        item, value = lam.args.args[0].arg, lam.body
+        item, f = lam.args.args[0].arg, None
+        rets = [(lam.body, [])]
     else:
-        rets = [r for r in walk_local(k.node, include_root=False)
-                if isinstance(r, ast.Return)]
-        if len(k.params) != 1 or len(rets) != 1:
+        if len(k.params) != 1:
             return 'unknown'
-        item, value = k.params[0], rets[0].value
-    if not isinstance(value, ast.Tuple) or len(value.elts) != 2:
-        return 'unknown'
-    f = k if lam is None else None
+        item, f = k.params[0], k
+        pm = parent_map(k.node)
+        rets = []
+        for r in walk_local(k.node, include_root=False):
+            if not isinstance(r, ast.Return):
+                continue
+            conds = []
+            n = r
+            while n in pm:
+                p_ = pm[n]
+                if isinstance(p_, ast.If) and n is not p_.test:
+                    conds.append((p_.test, n in p_.body))
+                elif isinstance(p_, (ast.For, ast.While, ast.Try)):
+                    return 'unknown'
+                n = p_
+            # an `if ...: return` before it: the negation holds here
+            blk = pm.get(r)
+            for st in walk_local(k.node, include_root=False):
+                if isinstance(st, ast.If) and not st.orelse and \
+                        st is not blk and before(k, st, r) and \
+                        not inside(st, r) and st.body and \
+                        isinstance(st.body[-1], ast.Return):
+                    conds.append((st.test, False))
+            rets.append((r.value, conds))
     major, minor = '%s[0][0]' % item, '%s[0][1]' % item
-    first, second = value.elts
-    if canon(f, first) != major:
+    verdict = ['ok']
+
+    def missing(test):
+        """True / False: the test says the minor is missing / present;
+        None: it says something else."""
+        t = canon(f, test)
+        if t == minor + ' is None':
+            return True
+        if t == minor + ' is not None':
+            return False
+        if t == minor:
+            verdict[0] = 'truthy'
+            return False
+        if t == 'not ' + minor:
+            verdict[0] = 'truthy'
+            return True
+        return None
+
+    def under(e, case):
+        """e with its conditional expressions decided for the case."""
+        e = substitute_locals(f, e) if f is not None else e
+        if isinstance(e, ast.IfExp):
+            m = missing(e.test)
+            if m is None:
+                return None
+            return under(e.body if m == case else e.orelse, case)
+        if isinstance(e, ast.BoolOp) and isinstance(e.op, ast.Or) and \
+                len(e.values) == 2 and canon(f, e.values[0]) == minor:
+            verdict[0] = 'truthy'
+            return under(e.values[1] if case else e.values[0], case)
+        return e
+    tuples = {}
+    for value, conds in rets:
+        for case in (True, False):
+            ms = [missing(t) == case if pol else missing(t) == (not case)
+                  for t, pol in conds]
+            if any(missing(t) is None for t, _ in conds):
+                return 'unknown'
+            if not all(ms):
+                continue
+            v = under(value, case)
+            if not isinstance(v, ast.Tuple):
+                return 'unknown'
+            comps = [under(c_, case) for c_ in v.elts]
+            if any(c_ is None for c_ in comps) or case in tuples:
+                return 'unknown'
+            tuples[case] = comps
+    if set(tuples) != {True, False}:
         return 'unknown'
-    if f is not None:
-        second = substitute_locals(f, second)
     top = ("float('inf')", 'math.inf', 'inf')
 
-    def kind(text):
-        if text in top:
-            return 'top'
+    def comp(e):
+        t = canon(f, e)
+        if t == major:
+            return ('major',)
+        if t == minor:
+            return ('minor',)
+        if t in top:
+            return ('top',)
         try:
-            return 'finite' if isinstance(
-                ast.literal_eval(text), (int, float)) else None
+            val = ast.literal_eval(t)
         except (ValueError, SyntaxError):
             return None
-    if isinstance(second, ast.IfExp):
-        t, a, b = canon(f, second.test), canon(f, second.body), \
-            canon(f, second.orelse)
-        if (t, b) == (minor + ' is None', minor) and kind(a):
-            return 'ok' if kind(a) == 'top' else 'low'
-        if (t, a) == (minor + ' is not None', minor) and kind(b):
-            return 'ok' if kind(b) == 'top' else 'low'
-        if (t, a) == (minor, minor) and kind(b):
-            return 'truthy' if kind(b) == 'top' else 'low'
-    if isinstance(second, ast.BoolOp) and isinstance(second.op, ast.Or) and \
-            len(second.values) == 2 and \
-            canon(f, second.values[0]) == minor and \
-            kind(canon(f, second.values[1])):
-        return 'truthy' if kind(canon(f, second.values[1])) == 'top' \
-            else 'low'
+        return ('num', val) if isinstance(val, (int, float)) and \
+            not isinstance(val, bool) else None
+    none_t = [comp(e) for e in tuples[True]]
+    some_t = [comp(e) for e in tuples[False]]
+    if None in none_t or None in some_t or not none_t or not some_t or \
+            none_t[0] != ('major',) or some_t[0] != ('major',):
+        return 'unknown'
+    # after the major: the missing-minor tuple must be greater than the
+    # other one for every minor, and the other one increase with the minor
+    if ('minor',) in none_t or some_t.count(('minor',)) != 1:
+        return 'unknown'
+    for a_, b_ in zip(none_t[1:], some_t[1:]):
+        if b_ == ('minor',):
+            if a_ == ('top',):
+                return verdict[0]
+            return 'low' if a_[0] == 'num' else 'unknown'
+        if a_[0] == 'num' and b_[0] == 'num':
+            if a_[1] > b_[1]:
+                # decided before the minor is looked at: it must still be
+                # what orders the present minors
+                rest = some_t[1:]
+                i = rest.index(('minor',))
+                if all(x[0] == 'num' for x in rest[:i]):
+                    return verdict[0]
+                return 'unknown'
+            if a_[1] < b_[1]:
+                return 'low'
+            continue
+        if a_ == ('top',) and b_[0] == 'num':
+            return verdict[0]
+        return 'unknown'
     return 'unknown'
 
 
@@ -542,7 +627,8 @@ def rejection_guards(prog, an, rep):
         return isinstance(e, ast.Compare) and len(e.ops) == 1 and \
             isinstance(e.ops[0], ast.LtE) and \
             src(e.left).endswith('(StabilizationBranch).micro') and \
-            "['micro']" in src(e.comparators[0])
+            any(x in src(e.comparators[0])
+                for x in ("['micro']", "group('micro')"))
 
     def is_hf_micro(e):
         if not (isinstance(e, ast.Compare) and len(e.ops) == 1 and
